@@ -41,6 +41,7 @@ class Rule:
         doc = spec.get("doc")
 
         if doc:
+            doc = copy.deepcopy(doc)  # normalised below; leave the caller's spec alone
             if not isinstance(doc, dict):
                 if isinstance(doc, str):
                     doc = [doc]
